@@ -155,9 +155,9 @@ PROPS = {
         unreached=["MutexSink, tee; WorkerSink::send / flush (channel sends)", "generated Merge / Key impls (metrique-macro aggregate.rs)", "AggregateSink for Aggregate<T> (embedded single aggregate)"],
     ),
     "C11": dict(
-        verus=[("hist", {}), ("hist_exp", {})],
+        verus=[("hist", {}), ("hist_shared", {}), ("hist_exp", {})],
         kani=["agg_hist"],
-        technique="Verus contracts + loop invariants on the real observation-capture loop (Histogram::add_value's Capturer::metric), the re-aggregation loop (AggregateValue<HistogramClosed>::insert), the sort-and-merge strategy (record_many, drain) "
+        technique="Verus contracts + loop invariants on the real observation-capture loop (Histogram::add_value's and SharedHistogram::add_value's Capturer::metric), the re-aggregation loop (AggregateValue<HistogramClosed>::insert), the sort-and-merge strategy (record_many, drain) "
                   "and the exponential strategies' glue around the `histogram` dependency (record_many, drain closures, scale_up, scale_down; atomic and non-atomic); Kani proof harnesses on the real record_many for the numeric scaling",
         level_text="Deductive proof (Verus/z3), for distributions and value lists of any length: (capture) every observation handed to a histogram is recorded exactly once, in order - a plain observation once at its value, "
                    "Repeated{total, n} n times at total/n, an empty Repeated not at all - hence as many values are recorded as the observations have occurrences (lemma); (re-aggregation) inserting a closed histogram records "
@@ -165,7 +165,7 @@ PROPS = {
                    "Repeated{value x count, count} per maximal run of equal values, counts adding up to the number of values (lemma) - and leaves the strategy empty; (exponential, atomic and non-atomic) record_many makes exactly one "
                    "`add` of the scaled, saturated value with the count unchanged, and drain swaps in an empty histogram and reports exactly one Repeated{scale_down(midpoint) x count, count} per non-empty bucket, in bucket order "
                    "(so reported occurrences = bucket counts). Kani/CBMC proof for every double 0 <= x < 2^43 and every count that the value handed to the dependency is floor(x * 2^10), and that values >= 2^54 saturate at u64::MAX. "
-                   "NOT decided: the bucket layout of the `histogram` dependency (which bucket a value falls into, its width: the 6.25% / 1/1024 bound), concurrent recording, SharedHistogram's twin capture loop.",
+                   "NOT decided: the bucket layout of the `histogram` dependency (which bucket a value falls into, its width: the 6.25% / 1/1024 bound), interleaving of concurrent add_value calls on a SharedHistogram (its capture loop is verified for one call at a time, with the Capturer's `&S` declared `&mut S`).",
         level_note="Trusted: Verus + z3; CBMC float model. In Verus floating point is opaque: `a / b`, `a * b`, casts, `a == b`, `min`, `is_nan` are deterministic uninterpreted functions of their operands (axioms / rewrites RF, S4, E1, E4), so 'mean', "
                    "'value x count' and 'scaled midpoint' are stated with those functions and only counts are exact. Exact-text rewrites S1 (sort_by_key(OrderedFloat) -> sorted permutation w.r.t. an opaque total order), S2 (iter().copied().filter(!is_nan)), "
                    "S3 (extend(repeat_n)); R3b, R14; std's Iterator/IntoIterator and the iterator adapters filter/map/collect restated over element sequences with the closures' contracts; the `histogram` crate's Histogram/AtomicHistogram/Bucket are stand-ins "
